@@ -155,6 +155,11 @@ func (router *Router) FindRoute(req *http.Request) (*routers.Route, map[string]s
 		if pathItem.GetOperation(method) == nil {
 			return nil, nil, &routers.RouteError{Reason: routers.ErrMethodNotAllowed.Error()}
 		}
+		if node == nil {
+			// the path is the text of a template that the pattern tree cannot match
+			// (a "rest of the path" variable in the middle of it): there is no route to hand out
+			return nil, nil, &routers.RouteError{Reason: routers.ErrPathNotFound.Error()}
+		}
 	}
 
 	if pathParams == nil {
